@@ -386,6 +386,32 @@ func c18Calls(c *wk.Ctx, fn schema.CallableFunction, pool []c18Type, pl []int, h
 				args[i] = int64(i)
 			}
 		}
+		if nargs != len(pl) {
+			// a wrong count is an error whatever the list holds: an untyped nil, a nil list
+			odd := [][]any{append([]any{}, args...)}
+			if nargs > 0 {
+				odd[0][nargs-1] = nil
+				allNil := make([]any, nargs)
+				odd = append(odd, allNil)
+			} else {
+				odd = append(odd, nil)
+			}
+			for _, oa := range odd {
+				var err error
+				p, site, msg, _ := wk.Guard(func() { _, err = fn.Call(oa) })
+				c.Count("calls")
+				c.Count("calls_with_a_wrong_count_and_nil_entries")
+				w := map[string]any{"declaration": wit, "nargs": nargs, "arguments": fmt.Sprintf("%#v", oa)}
+				var fce *schema.FunctionCallError
+				if p {
+					c.Violation("C18:call:panic:"+kind+":"+site, fmt.Sprintf("Call with %d argument(s) (declared %d), some of them nil, panicked: %s", nargs, len(pl), msg), w)
+				} else if err == nil {
+					c.Violation("C18:call:wrong-arg-count-accepted:"+kind, fmt.Sprintf("Call with %d argument(s) (declared %d) returned no error", nargs, len(pl)), w)
+				} else if errors.As(err, &fce) && fce.IsFunctionReportedError {
+					c.Violation("C18:call:shape-error-attributed-to-function:"+kind, fmt.Sprintf("wrong argument count reported as function-reported error: %v", err), w)
+				}
+			}
+		}
 		for errMode := range c18HandlerErrors {
 			withErr := errMode > 0
 			if withErr && !hasErr {
